@@ -112,7 +112,8 @@ func SameFloat(a, b float64) bool {
 }
 
 // The spec's strings are ASCII; ~ ^ ` stand for a 2-, 3- and 4-byte character.
-var toReal = strings.NewReplacer("~", "é", "^", "€", "`", "\U0001F600")
+// { } @ stand for no-break space, form feed and em space: white space to Unicode, ordinary characters to XPath.
+var toReal = strings.NewReplacer("~", "é", "^", "€", "`", "\U0001F600", "{", "\u00a0", "}", "\f", "@", "\u2003")
 
 func ToReal(s string) string { return toReal.Replace(s) }
 
@@ -132,7 +133,13 @@ func ToModel(s string) string {
 			b.WriteByte('^')
 		case r == 0x1F600:
 			b.WriteByte('`')
-		case r < 0x80 && r != '~' && r != '^' && r != '`' && r != '#':
+		case r == 0xa0:
+			b.WriteByte('{')
+		case r == '\f':
+			b.WriteByte('}')
+		case r == 0x2003:
+			b.WriteByte('@')
+		case r < 0x80 && r != '~' && r != '^' && r != '`' && r != '#' && r != '{' && r != '}' && r != '@':
 			b.WriteRune(r)
 		default:
 			for k := 0; k < w; k++ {
